@@ -175,9 +175,11 @@ func panicSite(stack string) string {
 // ---------- name pools ----------
 
 var (
-	tlds    = []string{"com", "org"}
-	slds    = []string{"a", "b", "test1"}
-	subs    = []string{"www", "api", "m", "vip", "x"}
+	// the labels cover the ends of the alphabet (a, z), a digit and a hyphen: case-insensitive
+	// comparison must hold for every letter and leave the other characters alone
+	tlds    = []string{"com", "org", "biz"}
+	slds    = []string{"a", "b", "test1", "zone-9"}
+	subs    = []string{"www", "api", "m", "vip", "x", "quiz", "az"}
 	ports   = []string{":80", ":8080", ":443", ":1"}
 	vipPool = []string{"10.0.0.1", "10.0.0.2", "192.168.7.9", "111.111.111.111", "2001:db8::1", "2001:db8::2", "fe80::1"}
 )
